@@ -11,6 +11,8 @@
 #include <fstream>
 #include <functional>
 #include <iostream>
+#include <limits>
+#include <stdexcept>
 #include <string>
 #include <unordered_map>
 
@@ -75,7 +77,15 @@ std::pair<Graph<EdgeLabel>, std::vector<std::string>> loadTextEdgeList(
         [](const std::string &s) { return EdgeLabel(); }
 ) {
     return loadTextVertexLabeledEdgeList<Graph, EdgeLabel>(
-        fileName, fromString, [](const std::string &str) { return stoi(str); }
+        fileName, fromString,
+        [](const std::string &str) -> VertexIndex {
+            long long index = std::stoll(str);
+            if (index < 0 || index > std::numeric_limits<VertexIndex>::max())
+                throw std::out_of_range(
+                    "Vertex index \"" + str + "\" is out of range."
+                );
+            return static_cast<VertexIndex>(index);
+        }
     );
 }
 
@@ -206,8 +216,8 @@ loadTextVertexLabeledEdgeList(
 
         auto largestVertex = std::max(vertex, vertex2);
         if (largestVertex >= returnedGraph.getSize()) {
-            returnedGraph.resize(largestVertex + 1);
-            vertexLabels.resize(largestVertex + 1);
+            returnedGraph.resize(static_cast<size_t>(largestVertex) + 1);
+            vertexLabels.resize(static_cast<size_t>(largestVertex) + 1);
         }
         vertexLabels[vertex] = std::move(edgeString[0]);
         vertexLabels[vertex2] = std::move(edgeString[1]);
